@@ -94,6 +94,39 @@ def impl_checks(ctx, cases):
         if not np.allclose(at_nodes, rf, rtol=1e-12, atol=1e-15) or before != 0.0 or after != float(rf[-1]):
             bad("recovery interpolator does not reproduce recovery at the simulated times / 0 before / final value after", c,
                 dict(max_node_diff=float(np.abs(at_nodes - rf).max()), before=before, after=after, final=float(rf[-1])))
+    # time grids that are not float64 (day counts as integers, float32 from a file): the frac-face pressure must not inherit the
+    # grid's dtype - scalar setting == constant schedule exactly, and shifting the grid by half a day changes nothing
+    from bluebonnet.flow import FlowProperties
+    tbg = rescorr.shipped_gas(stride=20)
+    with warnings.catch_warnings():
+        warnings.simplefilter("ignore")
+        fpg = FlowProperties({k_: v_.copy() for k_, v_ in tbg.items()}, 8000.0)
+    for tgrid, name in ((np.arange(0, 30), "int64 day counts"), (np.arange(0, 30, dtype=np.int32), "int32 day counts"),
+                        (np.linspace(0, 3, 25).astype(np.float32) ** 2, "float32")):
+        for pf in (1000.7, 2500.25):
+            runs = {}
+            for how in ("scalar", "constant schedule", "shifted by 0.5"):
+                r_ = SinglePhaseReservoir(8, pf, 8000.0, fpg)
+                with warnings.catch_warnings():
+                    warnings.simplefilter("ignore")
+                    if how == "scalar":
+                        r_.simulate(tgrid.copy())
+                    elif how == "constant schedule":
+                        r_.simulate(tgrid.copy(), np.full(len(tgrid), pf))
+                    else:
+                        r_.simulate(tgrid.astype(float) + 0.5)
+                    runs[how] = (np.array(r_.pseudopressure, float), np.array(r_.recovery_factor(), float))
+            ev += 3
+            inp_t = dict(time_grid=name, p_frac=pf, p_initial=8000.0, nx=8)
+            if not (np.array_equal(runs["scalar"][0], runs["constant schedule"][0]) and np.array_equal(runs["scalar"][1], runs["constant schedule"][1])):
+                ctx.violations.append(dict(what="a frac-face schedule that is constant in time does not give exactly the scalar setting's result (time grid that is not float64)",
+                                           key="const-sched-dtype", input=inp_t,
+                                           observed=dict(max_field_diff=float(np.abs(runs["scalar"][0] - runs["constant schedule"][0]).max()))))
+            tolg = 1e-6 if "float32" in name else 1e-9
+            if np.abs(runs["scalar"][0] - runs["shifted by 0.5"][0]).max() > tolg:
+                ctx.violations.append(dict(what="shifting all times by a constant changes the pseudopressure field (time grid that is not float64)",
+                                           key="shift-dtype", input=inp_t,
+                                           observed=dict(max_field_diff=float(np.abs(runs["scalar"][0] - runs["shifted by 0.5"][0]).max()))))
     return ev
 
 
